@@ -26,6 +26,9 @@ LEVEL_NOTE = ("Trusted: the perturbations actually change set orders (the salt c
               "in every process so file names in diagnostics do not differ.")
 TECHNIQUE = "perturbation of hash seeds / object-hash salts / heap layout across fresh processes with an outcome-set-size monitor"
 RULE = ("corpus per case: 3 accepted G-prog programs, 2 G-linear programs, 5 mutants (C02 mutators), "
+        "3 programs with nested functions capturing 2-5 variables of random names, 4 programs of "
+        "C08's definedness generator (mostly rejected, nested branches/loops), 3 programs reading a "
+        "variable assigned only behind 2-4 nested branches/loops, "
         "and 4 targeted shapes with >=2 simultaneous candidates for the reported item (branch type "
         "mismatches on 3 variables, 3 comptime parameters on an entry point, 2 leaked qubits, 2 "
         "undefined variables); 6 (quick) / 12 (thorough) configurations each. distinct = distinct "
@@ -53,6 +56,94 @@ TARGETED = [
                                           "from guppylang.std.quantum import qubit, discard\nfrom guppylang.std.builtins import owned"),
      "main", False),
 ]
+
+
+WORDS = ["alpha", "beta", "gamma", "delta", "eps", "zeta", "eta", "theta", "iota", "kappa", "lam", "mu",
+         "nu", "xi", "omi", "rho", "sigma", "tau", "ups", "phi", "chi", "psi", "omega", "aa", "bb", "cc"]
+
+
+def capture_prog(rng):
+    """Nested functions capturing 2-5 outer variables (experimental closures): the order of the
+    captured variables fixes the lifted function's extra inputs, so it must not depend on set order."""
+    names = rng.sample(WORDS, rng.randint(3, 6))
+    tys = {n: rng.choice(["int", "int", "float", "bool"]) for n in names}
+    lit = {"int": lambda: str(rng.randint(1, 9)), "float": lambda: rng.choice(["0.5", "1.5", "2.25"]),
+           "bool": lambda: rng.choice(["True", "False"])}
+    L = ["from guppylang import guppy", "from guppylang.std.builtins import result", "", "@guppy",
+         "def main(pp: int) -> int:"]
+    for n in names:
+        L.append(f"    {n} = {lit[tys[n]]()}")
+
+    def use(n):
+        return {"int": n, "float": f"int({n})", "bool": f"int({n})"}[tys[n]]
+
+    inners = []
+    for k in range(rng.randint(1, 2)):
+        caps = rng.sample(names, rng.randint(2, min(5, len(names))))
+        L.append(f"    def inner{k}(q: int) -> int:")
+        if rng.random() < 0.4:
+            L.append(f"        if q > 3:")
+            L.append(f"            return {' + '.join(use(c) for c in caps[:2])}")
+        L.append(f"        return q + {' + '.join(use(c) for c in caps)}")
+        inners.append(f"inner{k}")
+    L.append("    return " + " + ".join(f"{f}(pp)" for f in inners))
+    return "\n".join(L) + "\n"
+
+
+def maybe_undefined_prog(rng):
+    """Rejected programs from C08's generator: undefined / maybe-undefined / branch-type errors under
+    nested branches and loops, whose diagnostics pick one of several candidate blocks or variables."""
+    from vf.props import c08
+
+    g = c08.G(rng, const_conds=False)
+    body = g.block(0, False)
+    return c08.program(body)
+
+
+def nested_maybe_prog(rng):
+    """A variable assigned only behind 2-4 nested branches / loops (on one or several arms) and read
+    afterwards: rejected as maybe-undefined, and the diagnostic has several candidate conditions to
+    blame; which one it names must not depend on set order."""
+    conds = rng.sample(WORDS, 5)
+    var = rng.choice(["xx", "res", "acc"])
+    L = ["from guppylang import guppy", "", "@guppy",
+         f"def main({', '.join(c + ': bool' for c in conds)}, nn: int) -> int:"]
+    depth = rng.randint(2, 4)
+    ind = "    "
+    L.append(f"{ind}ii = 0")
+
+    def nest(d, ind):
+        c = conds[d % len(conds)]
+        kind = rng.choice(["if", "if", "ifelse", "while", "elif"])
+        if kind == "while":
+            L.append(f"{ind}while {c} and ii < nn:")
+            L.append(f"{ind}    ii += 1")
+            inner(d, ind + "    ")
+        elif kind == "if":
+            L.append(f"{ind}if {c}:")
+            inner(d, ind + "    ")
+        elif kind == "ifelse":
+            L.append(f"{ind}if {c}:")
+            inner(d, ind + "    ")
+            L.append(f"{ind}else:")
+            L.append(f"{ind}    ii += 2")
+        else:
+            L.append(f"{ind}if {c} and ii > 5:")
+            L.append(f"{ind}    ii += 3")
+            L.append(f"{ind}elif {c}:")
+            inner(d, ind + "    ")
+
+    def inner(d, ind):
+        if d + 1 >= depth:
+            L.append(f"{ind}{var} = ii + {rng.randint(1, 9)}")
+        else:
+            nest(d + 1, ind)
+            if rng.random() < 0.3:
+                nest(d + 1, ind)
+
+    nest(0, ind)
+    L.append(f"{ind}return {var}")
+    return "\n".join(L) + "\n"
 
 
 def plan(tier, seed):
@@ -86,6 +177,15 @@ def build_corpus(rng):
             glinear.mutate(fn, rng)
         progs.append({"text": glinear.render(fn), "entry": "main", "entrypoint": False,
                       "kind": "mutant-glinear", "nontrivial": True})
+    for _ in range(3):
+        progs.append({"text": capture_prog(rng), "entry": "main", "entrypoint": False,
+                      "kind": "closure-captures", "nontrivial": True})
+    for _ in range(4):
+        progs.append({"text": maybe_undefined_prog(rng), "entry": "main", "entrypoint": False,
+                      "kind": "c08-definedness", "nontrivial": True})
+    for _ in range(3):
+        progs.append({"text": nested_maybe_prog(rng), "entry": "main", "entrypoint": False,
+                      "kind": "nested-maybe-undefined", "nontrivial": True})
     for text, entry, ep in rng.sample(TARGETED, 4):
         progs.append({"text": text, "entry": entry, "entrypoint": ep, "kind": "targeted", "nontrivial": True})
     return progs
